@@ -272,8 +272,48 @@ pub fn run_point(p: &FaultPoint) -> Result<FaultInfo, FaultViolation> {
     }
 }
 
+/// Installed for the directory-exactness runs: a get that has just released the database mutex
+/// waits while the background thread is visibly busy (filesystem or hook activity within 150 us)
+/// until a version has been installed or 4 ms have passed. The version the get pinned is then
+/// usually no longer current when the get re-acquires the mutex. Affects the schedule only.
+struct GetStaller;
+
+impl GetStaller {
+    fn install() -> Self {
+        raindb::verif::set_point_callback(Some(Arc::new(|name: &'static str| {
+            if name != "get.unlocked" {
+                return;
+            }
+            let a0 = crate::guard::activity();
+            let v0 = raindb::verif::counter(Counter::VersionInstalled);
+            let t0 = std::time::Instant::now();
+            let mut busy = false;
+            while t0.elapsed() < Duration::from_micros(150) {
+                if crate::guard::activity() != a0 {
+                    busy = true;
+                    break;
+                }
+                std::hint::spin_loop();
+            }
+            if busy {
+                while t0.elapsed() < Duration::from_millis(4) && raindb::verif::counter(Counter::VersionInstalled) == v0 {
+                    std::thread::yield_now();
+                }
+            }
+        })));
+        GetStaller
+    }
+}
+
+impl Drop for GetStaller {
+    fn drop(&mut self) {
+        raindb::verif::set_point_callback(None);
+    }
+}
+
 fn run_point_inner(p: &FaultPoint) -> Result<FaultInfo, String> {
     let case = &p.case;
+    let _staller = if p.dircheck { Some(GetStaller::install()) } else { None };
     let mem = Arc::new(MemFs::new(false));
     let ffs = Arc::new(FaultFs::new(mem.clone()));
     let ctl = ffs.ctl.clone();
@@ -777,11 +817,11 @@ pub fn worker_dircheck(ctx: &WorkerCtx, res: &RefCell<WorkerResult>) {
         return;
     }
     let workloads = match ctx.tier {
-        Tier::Quick => 32u64,
-        Tier::Thorough => 600,
+        Tier::Quick => 64u64,
+        Tier::Thorough => 900,
     };
     let per = match ctx.tier {
-        Tier::Quick => 80usize,
+        Tier::Quick => 120usize,
         Tier::Thorough => 600,
     };
     let found: RefCell<Option<(FaultPoint, String)>> = RefCell::new(None);
@@ -800,6 +840,20 @@ pub fn worker_dircheck(ctx: &WorkerCtx, res: &RefCell<WorkerResult>) {
         if found.borrow().is_some() {
             return Ok(());
         }
+        // Shape the workload so that reads of table files overlap background flushes and
+        // compactions: small memtable, and a get of another key right after every write (the
+        // version that get pinned is then often superseded while the get is still reading).
+        let mut case = case;
+        let h0 = hash_json(&case);
+        case.cfg.memtable = if h0 & 1 == 0 { 512 } else { 700 };
+        let mut ops = Vec::with_capacity(case.ops.len() * 2);
+        for (i, op) in case.ops.iter().enumerate() {
+            ops.push(op.clone());
+            if matches!(op, Op::Put(..) | Op::Delete(..) | Op::Batch(..) | Op::Fill { .. }) {
+                ops.push(Op::Get(mix(h0, i as u64) as u16));
+            }
+        }
+        case.ops = ops;
         let ch = hash_json(&case);
         let base = FaultPoint { dircheck: false, case: case.clone(), pos: None, sticky: false };
         let info = match guarded_point(&base) {
